@@ -1098,6 +1098,8 @@ pub fn run(ctx: &Ctx) -> Outcome {
     rx::part_b(ctx, t0 + budget.mul_f64(fb), &mut out, &mut tot);
     let c = part_c(ctx, t0 + budget, &mut out);
     let d = part_d(&mut out);
+    let e = rx::part_e(ctx, &mut out);
+    out.set("e_delivery_shape_sequences", e);
     out.set("late_disposition_after_link_reuse_cases", d);
     out.set("states", tot.states.max(1));
     out.set("transitions", tot.transitions.max(1) + c.1);
@@ -1150,6 +1152,7 @@ fn replay(p: &std::path::Path, mut out: Outcome) -> Outcome {
             }
         }
         Some("B") => rx::replay_b(r, &mut out),
+        Some("E") => rx::replay_e(r, &mut out),
         _ => {
             println!("schedule replay: re-running the exploration with quick bounds");
             let ctx = Ctx {
